@@ -80,7 +80,12 @@ var maxTime = time.Unix(0, 1<<63-1)
 
 // NextFireTime returns the next time at which the CronTrigger is scheduled to fire.
 func (ct *CronTrigger) NextFireTime(prev int64) (int64, error) {
-	prevTime := time.Unix(prev/int64(time.Second), 0).In(ct.location)
+	// the whole second at or before prev (also for instants before 1970)
+	prevSec := prev / int64(time.Second)
+	if prev%int64(time.Second) < 0 {
+		prevSec--
+	}
+	prevTime := time.Unix(prevSec, 0).In(ct.location)
 	// the schedule is evaluated on the wall clock of the trigger's location
 	year, month, day := prevTime.Date()
 	hour, minute, second := prevTime.Clock()
